@@ -28,7 +28,7 @@ From ClapModel Require Import Complete.EngineAccept Complete.EngineFuel Complete
 From ClapModel Require ParseProofs.Chain ParseProofs.ActionsTop.
 From ClapModel Require Import Complete.EngineLine Complete.EnginePositional.
 From ClapModel Require ParseProofs.ChainWide.
-From ClapModel Require Import Complete.EngineItems Complete.EngineWide.
+From ClapModel Require Import Complete.EngineItems Complete.EngineWide Complete.EngineHidden.
 From ClapModel Require Gen.EngineSites.
 From Coq Require Import ZArith.
 Open Scope N_scope.
@@ -734,3 +734,19 @@ Theorem C18_args_conflict_before_after :
   Conflict.level_at Conflict.c1 [[112]; Conflict.f; Conflict.w_sub; []] 3 = Some [112].
 Proof. exact args_conflict_before_after. Qed.
 Print Assumptions C18_args_conflict_before_after.
+
+(** * The hide flag is the DEFINITIONAL one (Complete/EngineHidden.v)
+    [def_flag c cd h]: by the definition of the level [c] the spelling [cd_value cd] of the argument / subcommand whose id
+    [cd] carries is hidden ([h = true]: the argument / subcommand is hidden, or the spelling is an alias that is not a
+    visible alias - a hidden alias of a VISIBLE option is a hidden spelling) or visible ([h = false]) *)
+Theorem C18_hide_flag_definitional : forall tbl w c pi st l x,
+  complete_arg tbl w c pi st = COk l -> In x l -> cd_id x <> None -> def_flag c x (cd_hidden x).
+Proof. exact hide_flag_definitional. Qed.
+Print Assumptions C18_hide_flag_definitional.
+
+(** ... hence the rule of the property read off the definition: beside a candidate shown as visible, every option /
+    subcommand candidate has a spelling that is visible by definition *)
+Theorem C18_hidden_rule_definitional : forall tbl w c pi st l x y,
+  complete_arg tbl w c pi st = COk l -> In x l -> cd_hidden x = false -> In y l -> cd_id y <> None -> def_flag c y false.
+Proof. exact hidden_rule_definitional. Qed.
+Print Assumptions C18_hidden_rule_definitional.
